@@ -53,6 +53,8 @@ pub fn run(cx: &mut Ctx) {
     escape_table(cx, &refd, "C06.E1");
     string_kinds(cx, &refd);
     radix_tables(cx, &refd);
+    radix_forwarding(cx);
+    named_escape(cx);
     value_conversions(cx);
     lex_string_order(cx);
     conversion_flags(cx, &refd);
@@ -454,6 +456,161 @@ fn radix_tables(cx: &mut Ctx, refd: &serde_json::Value) {
         cx.ok(rule, "every radix passed to radix_run / lex_number_radix is a literal of {2, 8, 10, 16} (or the forwarded parameter)");
     } else {
         cx.fail(rule, &format!("{}/radix-args", rule), &lx.rel, &format!("radix arguments outside the handled set: {:?}", bad));
+    }
+}
+
+/// Longest character name / alias known to the locked unicode_names2 (from the data files of the crate source
+/// cargo extracted for the locked version); falls back to the value reviewed for a known version.
+fn longest_unicode_name(cx: &mut Ctx) -> Option<(usize, String)> {
+    let lock = std::fs::read_to_string(cx.repo.join("Cargo.lock")).ok()?;
+    let ver = lock.split("name = \"unicode_names2\"\nversion = \"").nth(1)?.split('"').next()?.to_string();
+    let home = std::env::var("CARGO_HOME").map(std::path::PathBuf::from).unwrap_or_else(|_| std::path::PathBuf::from(std::env::var("HOME").unwrap_or_else(|_| "/root".into())).join(".cargo"));
+    if let Ok(rd) = std::fs::read_dir(home.join("registry/src")) {
+        for idx in rd.flatten() {
+            let d = idx.path().join(format!("unicode_names2-{}", ver)).join("data");
+            let (Ok(ud), Ok(na)) = (std::fs::read_to_string(d.join("UnicodeData.txt")), std::fs::read_to_string(d.join("NameAliases.txt"))) else { continue };
+            let mut best = 0usize;
+            for l in ud.lines() {
+                if let Some(n) = l.split(';').nth(1) {
+                    if !n.starts_with('<') {
+                        best = best.max(n.len());
+                    }
+                }
+            }
+            for l in na.lines() {
+                if l.starts_with('#') {
+                    continue;
+                }
+                if let Some(n) = l.split(';').nth(1) {
+                    best = best.max(n.len());
+                }
+            }
+            if best > 0 {
+                return Some((best, format!("unicode_names2 {} data/UnicodeData.txt + NameAliases.txt", ver)));
+            }
+        }
+    }
+    let reviewed: &[(&str, usize)] = &[("1.3.0", 88)];
+    let r = reviewed.iter().find(|r| r.0 == ver)?;
+    cx.assume(&format!("the source of unicode_names2 {} is not extracted in the cargo registry; its longest name ({}) is the value reviewed for that version", ver, r.1));
+    Some((r.1, format!("reviewed value for unicode_names2 {}", ver)))
+}
+
+fn named_escape(cx: &mut Ctx) {
+    let rule = "C06.N2";
+    cx.rule(rule, "\\N{name}: the name is the characters between '{' and '}' in order, the value is unicode_names2::character(&name), and any length-based rejection before the lookup accepts every name the locked unicode_names2 knows (the bound is compared against the longest name in the locked crate's Unicode data)");
+    cx.floor(rule, 3);
+    let s = match sm::load(&cx.repo, "parser/src/string.rs") {
+        Ok(s) => s,
+        Err(e) => return cx.anchor_missing(rule, &e),
+    };
+    let Some(f) = s.method("StringParser", "parse_unicode_name") else { return cx.anchor_missing(rule, "parse_unicode_name") };
+    let t = sm::tsc(&f.block);
+    if t.contains("Some('}')=>break,Some(c)=>name.push(c),") && t.contains("letmutname=String::new();") {
+        cx.ok(rule, "name = every character up to '}' pushed in order");
+    } else {
+        cx.fail(rule, &format!("{}/collect", rule), &s.loc(f), "the name is not collected as every character up to '}' in order");
+    }
+    if t.contains("unicode_names2::character(&name)") {
+        cx.ok(rule, "value = unicode_names2::character(&name)");
+    } else {
+        cx.fail(rule, &format!("{}/lookup", rule), &s.loc(f), "the value does not come from unicode_names2::character(&name)");
+    }
+    let Some((longest, src)) = longest_unicode_name(cx) else { return cx.anchor_missing(rule, "locked unicode_names2 version / data") };
+    // constants of the file
+    let mut consts: BTreeMap<String, i128> = BTreeMap::new();
+    for it in &s.file.items {
+        if let syn::Item::Const(c) = it {
+            if let syn::Expr::Lit(l) = &*c.expr {
+                if let syn::Lit::Int(i) = &l.lit {
+                    if let Ok(v) = i.base10_parse::<i128>() {
+                        consts.insert(c.ident.to_string(), v);
+                    }
+                }
+            }
+        }
+    }
+    let val = |e: &syn::Expr| -> Option<i128> {
+        let t = sm::tsc(e);
+        t.parse::<i128>().ok().or_else(|| consts.get(&t).copied())
+    };
+    let mut guards = 0;
+    let mut bad: Vec<String> = vec![];
+    sm::for_each_expr_in_block(&f.block, |e| {
+        if let syn::Expr::Binary(b) = e {
+            let (l, r) = (sm::tsc(&b.left), sm::tsc(&b.right));
+            let is_len = |x: &str| x == "name.len()" || x == "name.chars().count()";
+            // max accepted length under the rejecting comparison
+            let accepted: Option<i128> = match (&b.op, is_len(&l), is_len(&r)) {
+                (syn::BinOp::Gt(_), true, _) => val(&b.right),
+                (syn::BinOp::Ge(_), true, _) => val(&b.right).map(|k| k - 1),
+                (syn::BinOp::Lt(_), _, true) => val(&b.left),
+                (syn::BinOp::Le(_), _, true) => val(&b.left).map(|k| k - 1),
+                (_, true, _) | (_, _, true) => Some(-1),
+                _ => return,
+            };
+            guards += 1;
+            match accepted {
+                Some(a) if a >= longest as i128 => {}
+                other => bad.push(format!("`{}` accepts names up to {:?} bytes, the longest known name has {}", sm::tsc(e), other, longest)),
+            }
+        }
+    });
+    if bad.is_empty() {
+        cx.ok(rule, &format!("{} length guard(s) accept every known name (longest: {} bytes, {})", guards, longest, src));
+    } else {
+        cx.fail(rule, &format!("{}/length-bound", rule), &s.loc(f), &bad.join("; "));
+    }
+}
+
+fn radix_forwarding(cx: &mut Ctx) {
+    let rule = "C06.R2";
+    cx.rule(rule, "radix forwarding: inside every lexer function that has a `radix` parameter, each call of another radix-parameterised function (discovered from the signatures: lex_number_radix, radix_run, take_number, is_digit_of_radix) and of BigInt::from_str_radix passes that same `radix` — digits, the `_` separator look-ahead and the value conversion all use the literal's own radix");
+    cx.floor(rule, 5);
+    let Some(lx) = lr::load_lexer(cx, rule) else { return };
+    let mut radix_fns: BTreeMap<String, usize> = BTreeMap::new();
+    let mut bodies: Vec<&syn::ImplItemFn> = vec![];
+    for i in lx.impls() {
+        for it in &i.items {
+            if let syn::ImplItem::Fn(f) = it {
+                let params: Vec<String> = f.sig.inputs.iter().filter_map(|a| if let syn::FnArg::Typed(pt) = a { Some(sm::tsc(&pt.pat)) } else { None }).collect();
+                if let Some(ix) = params.iter().position(|p| p == "radix") {
+                    radix_fns.insert(f.sig.ident.to_string(), ix);
+                    bodies.push(f);
+                }
+            }
+        }
+    }
+    radix_fns.insert("from_str_radix".into(), 1);
+    if bodies.len() < 4 {
+        cx.fail(rule, &format!("{}/anchors", rule), &lx.rel, &format!("{} functions with a `radix` parameter (4 expected)", bodies.len()));
+    }
+    for f in bodies {
+        let fname = f.sig.ident.to_string();
+        let mut sites: Vec<(String, Option<String>)> = vec![];
+        sm::for_each_expr_in_block(&f.block, |e| match e {
+            syn::Expr::MethodCall(mc) => {
+                if let Some(ix) = radix_fns.get(&mc.method.to_string()) {
+                    sites.push((mc.method.to_string(), mc.args.iter().nth(*ix).map(|a| sm::tsc(a))));
+                }
+            }
+            syn::Expr::Call(c) => {
+                if let syn::Expr::Path(p) = &*c.func {
+                    let last = p.path.segments.last().map(|s| s.ident.to_string()).unwrap_or_default();
+                    if let Some(ix) = radix_fns.get(&last) {
+                        sites.push((last, c.args.iter().nth(*ix).map(|a| sm::tsc(a))));
+                    }
+                }
+            }
+            _ => {}
+        });
+        for (n, (callee, arg)) in sites.iter().enumerate() {
+            if arg.as_deref() == Some("radix") {
+                cx.ok(rule, &format!("{} -> {}(.., radix)", fname, callee));
+            } else {
+                cx.fail(rule, &format!("{}/{}/{}#{}", rule, fname, callee, n + 1), &lx.loc(f), &format!("{} calls {} with radix argument {:?} instead of its own `radix`", fname, callee, arg));
+            }
+        }
     }
 }
 
